@@ -231,6 +231,65 @@ theorem C02_current_round_trip (n : Nat) (h : n < U64) :
       rw [hfmt, List.reverse_append, List.reverse_cons, he]; simp
     simp [parseCurrent, this, hc]
 
+/-- **C02: recovery misses no file that is there.**  In a directory that holds the files of the
+numbers `tables`, `wals`, `manifests`, `temps` under the names the database writes (plus CURRENT
+and LOCK), exactly the live numbers that are in none of the four sets are reported missing: a
+database whose live tables are all on disk opens, and **C15: a live table that is gone is
+detected at open** (the error `missing files`) unless another file carries its number. -/
+theorem C02_missing_files_are_exactly_the_absent_ones (live tables wals manifests temps : List Nat)
+    (hb : (∀ n ∈ tables, n < U64) ∧ (∀ n ∈ wals, n < U64) ∧ (∀ n ∈ manifests, n < U64) ∧
+          (∀ n ∈ temps, n < U64)) :
+    missingFiles live
+      ((manifests.map manifestName ++ temps.map tempName ++ [FN_CURRENT_FILE, FN_LOCK_FILE]) ++
+        wals.map walName ++ tables.map tableName)
+    = live.filter (fun n => !((manifests ++ temps ++ wals ++ tables).contains n)) := by
+  obtain ⟨ht, hw, hm, hp⟩ := hb
+  have h1 : presentNumbers (manifests.map manifestName) = manifests := by
+    apply present_map; intro n hn
+    have := C11_written_names_parse_back (.manifest n) (hm n hn)
+    simp only [nameOf] at this; simp [this, numberOf]
+  have h2 : presentNumbers (temps.map tempName) = temps := by
+    apply present_map; intro n hn
+    have := C11_written_names_parse_back (.temp n) (hp n hn)
+    simp only [nameOf] at this; simp [this, numberOf]
+  have h3 : presentNumbers (wals.map walName) = wals := by
+    apply present_map; intro n hn
+    have := C11_written_names_parse_back (.wal n) (hw n hn)
+    simp only [nameOf] at this; simp [this, numberOf]
+  have h4 : presentNumbers (tables.map tableName) = tables := by
+    apply present_map; intro n hn
+    have := C11_written_names_parse_back (.table n) (ht n hn)
+    simp only [nameOf] at this; simp [this, numberOf]
+  have h5 : presentNumbers [FN_CURRENT_FILE, FN_LOCK_FILE] = [] := by
+    have a := C11_written_names_parse_back .current trivial
+    have b := C11_written_names_parse_back .lock trivial
+    simp only [nameOf] at a b
+    simp [presentNumbers, a, b, numberOf]
+  have happ : ∀ a b : List Name, presentNumbers (a ++ b) = presentNumbers a ++ presentNumbers b := by
+    intro a b; simp [presentNumbers, List.filterMap_append]
+  unfold missingFiles
+  rw [happ, happ, happ, happ, h1, h2, h3, h4, h5]
+  simp
+
+/-- in particular: all live tables on disk ⇒ nothing is missing -/
+theorem C02_no_file_missing_when_the_live_tables_are_there (live tables wals manifests temps : List Nat)
+    (hb : (∀ n ∈ tables, n < U64) ∧ (∀ n ∈ wals, n < U64) ∧ (∀ n ∈ manifests, n < U64) ∧
+          (∀ n ∈ temps, n < U64))
+    (hl : ∀ n ∈ live, n ∈ tables) :
+    missingFiles live
+      ((manifests.map manifestName ++ temps.map tempName ++ [FN_CURRENT_FILE, FN_LOCK_FILE]) ++
+        wals.map walName ++ tables.map tableName) = [] := by
+  rw [C02_missing_files_are_exactly_the_absent_ones live tables wals manifests temps hb]
+  rw [List.filter_eq_nil_iff]
+  intro n hn
+  have := hl n hn
+  simp [this]
+
+example : missingFiles [5, 7] [tableName 5, walName 9, [120], FN_CURRENT_FILE] = [7] := by decide +kernel
+/-- a foreign spelling of the missing table's number hides the loss from this test (C11g: names the
+    database never writes) -/
+example : missingFiles [7] [[43, 55, 46, 114, 100, 98]] = [] := by decide +kernel
+
 /-! ### non-vacuity and the corners of the parser (kernel-checked on the literals of the source) -/
 
 private def s (x : String) : Name := x.toList.map Char.toNat
